@@ -708,7 +708,7 @@ def c08(run):
     interp_trace(run, ["C08"], "conflictdiff", sizes(run, 80, 2000), has_diff_pair, spec="Trace_View.tla")
     interp_trace(run, ["C08"], "diff", sizes(run, 80, 2000), has_diff_pair, spec="Trace_View.tla")
     # long histories (up to 40 changes: head sets far apart, the change graph's clock cache in use)
-    interp_trace(run, ["C08"], "difflong", sizes(run, 8, 200), has_diff_pair, spec="Trace_View.tla")
+    interp_trace(run, ["C08"], "difflong", sizes(run, 8, 60), has_diff_pair, spec="Trace_View.tla")
     # text under UTF-8 / UTF-16: patch indexes in units (View!ApplyPatchE)
     interp_trace(run, ["C08"], "difftext", sizes(run, 40, 1200), has_diff_pair, spec="Trace_View.tla")
 
